@@ -110,6 +110,7 @@ def run_case(spec):
     ser_desc, ser_pred = faults.gen_mask(rng, 10)
     ser_on = rng.random() < 0.5
     ser_calls = {"n": 0}
+    ser_exc = rng.choice([excs.SerFault, StopIteration, KeyError, ValueError, TypeError, RuntimeError, AssertionError, excs.BadStr, RecursionError])
 
     def ser_hook(name, f):
         def wrapped(v):
@@ -117,12 +118,12 @@ def run_case(spec):
             ser_calls["n"] += 1
             if ser_on and ser_pred(i):
                 fired["ser"] += 1
-                raise excs.SerFault("serializer %s failed on call %d" % (name, i))
+                raise ser_exc("serializer %s failed on call %d" % (name, i))
             return f(v)
         return wrapped
 
     g = gen.ProgGen(rng, max_depth=rng.choice([2, 3, 4]), max_nodes=rng.choice([8, 20, 40]), value_depth=1,
-                    hostile=hostile if use_hostile else None, fail_p=0.4)
+                    hostile=hostile if use_hostile else None, fail_p=0.4, early_finish_p=0.2, extra_styles=("pre_created", "ctx_finish_inside"))
     prog = g.program()
     st = gen.prog_stats(prog)
 
